@@ -180,7 +180,7 @@ func unifyTuplesAsList(types []cty.Type, unsafe bool) (cty.Type, []Conversion) {
 				return out, err
 			}
 
-			return listConv(in)
+			return listConv(out)
 		}
 	}
 
@@ -237,7 +237,7 @@ func unifyObjectsAsMaps(types []cty.Type, unsafe bool) (cty.Type, []Conversion) 
 				return out, err
 			}
 
-			return mapConv(in)
+			return mapConv(out)
 		}
 	}
 
